@@ -359,3 +359,12 @@ CLAIMS["C10"]["level"] += " The handler's message names the file and the line of
 CLAIMS["C12"]["level"] += " The trailing-doc lookup order (C11's R11.6) is evaluated under this id as well."
 CLAIMS["C14"]["level"] += " The raw value of a template argument is created from its own token list before the trial parse touches it (C02's region rule under this id)."
 CLAIMS["C16"]["level"] += " tokfmt is interpreted as a whole function on concrete class sequences (any number of loops, early returns, for-else); text returned by tokfmt / format() is only concatenated by its callers in types.py, never edited (shared with C17)."
+# round 10
+CLAIMS["C01"]["level"] += " Look-ahead accessors compare token types with types and texts with texts (shared with C09)."
+CLAIMS["C03"]["level"] += " The class block's constructor stores the access level it is handed (the class-key default computed by the parser)."
+CLAIMS["C08"]["level"] += " A keyword guard with further conjuncts is evaluated for every keyword; the text handed to the lexer is the input with CR LF read as LF and nothing else rewritten (shared with C09); back-references in token rules are read with the group's language (widened)."
+CLAIMS["C09"]["level"] += " Look-ahead accessors compare exactly one token attribute with their argument."
+CLAIMS["C12"]["level"] += " No container that lives on the parser is filled while parsing (a cache shared between declarations)."
+CLAIMS["C13"]["level"] += " The argument lists of constructor initializers go through the bracket counter, not the '<' '>'-interpreting consumer."
+CLAIMS["C17"]["level"] += " Children are formatted in full: format() without arguments, format_decl() with the declarator only."
+CLAIMS["C19"]["level"] += " A regular expression that extracts the file name from a line marker admits blanks in the name."
